@@ -344,7 +344,36 @@ def state_oracle(game) -> List[str]:
             want = ("RUNNING",) if on else ("STOPPED", "CLOSED")
             if st not in want:
                 bad.append(f"software-state {node.config.hostname} {name} {st} node_on={on}")
+            # a kill-chain / attack stage is not declarable in the file: when the scenario is loaded it is the class's initial member
+            # (loading must not have executed - or "completed" - an attack)
+            for field, info in getattr(type(sw), "model_fields", {}).items():
+                if "stage" in field and info.default is not None and hasattr(info.default, "name"):
+                    cur = getattr(sw, field, info.default)
+                    if cur != info.default:
+                        bad.append(f"kill-chain-stage:{name}:{field} {node.config.hostname} built={getattr(cur, 'name', cur)} "
+                                   f"initial={info.default.name}")
     return bad
+
+
+RED_APPLICATIONS = ("dos-bot", "data-manipulation-bot", "ransomware-script", "c2-beacon", "c2-server", "nmap")
+
+
+def software_states(game) -> Dict[str, str]:
+    """host:software -> canonical text of the software's own state (describe_state + every `*stage*` field), uuids masked."""
+    import re as _re
+    out = {}
+    for node in game.simulation.network.nodes.values():
+        for name, sw in node.software_manager.software.items():
+            try:
+                d = sw.describe_state()
+            except Exception as e:
+                d = {"describe_state raises": type(e).__name__}
+            for field in getattr(type(sw), "model_fields", {}):
+                if "stage" in field:
+                    d["." + field] = str(getattr(sw, field, None))
+            out[f"{node.config.hostname}:{name}"] = _re.sub(r"[0-9a-f]{8}-[0-9a-f]{4}-[0-9a-f]{4}-[0-9a-f]{4}-[0-9a-f]{12}", "<uuid>",
+                                                            json.dumps(d, sort_keys=True, default=str))
+    return out
 
 
 def options_oracle(game, cfg: Dict) -> List[str]:
